@@ -192,23 +192,23 @@ theorem fresh_inv [Mul K] (pre : PrefixesN K) (t : Dict (Entry K)) : Inv pre (fr
 theorem sound_add {cfg : Cfg} (h : cfg.sound = true) (np : Bool) (k : Repl) : cfg.addForgets np k = true := by
   unfold Cfg.sound at h
   simp only [Bool.and_eq_true] at h
-  obtain ⟨⟨⟨⟨⟨⟨⟨⟨⟨⟨⟨a0, a1⟩, a2⟩, a3⟩, a4⟩, a5⟩, a6⟩, a7⟩, _⟩, _⟩, _⟩, _⟩ := h
+  obtain ⟨⟨⟨⟨⟨⟨⟨⟨⟨⟨⟨⟨a0, a1⟩, a2⟩, a3⟩, a4⟩, a5⟩, a6⟩, a7⟩, _⟩, _⟩, _⟩, _⟩, _⟩ := h
   cases np <;> cases k with
   | absent => assumption
   | derived => assumption
   | user p => cases p <;> assumption
 
 theorem sound_rest {cfg : Cfg} (h : cfg.sound = true) :
-    cfg.removeForgets = true ∧ cfg.modifyForgets = true ∧ cfg.dumpSkipsDerived = true := by
+    cfg.removeForgets = true ∧ cfg.modifyForgets = true ∧ cfg.dumpSkipsDerived = true ∧ cfg.copyKeepsFlags = true := by
   unfold Cfg.sound at h
   simp only [Bool.and_eq_true] at h
-  exact ⟨h.1.1.1.2, h.1.1.2, h.1.2⟩
+  exact ⟨h.1.1.1.1.2, h.1.1.1.2, h.1.1.2, h.2⟩
 
 /-- one step: the invariant is kept and the answer is the fresh registry's answer -/
 theorem step_sim [Mul K] {cfg : Cfg} (hs : cfg.sound = true) (pre : PrefixesN K) (dflt : Dict (Entry K)) (r : Reg K)
     (c : Contents K) (h : Inv pre r c) (op : Op K) :
     Inv pre (step cfg pre dflt r op).1 (absStep dflt c op) ∧ (step cfg pre dflt r op).2 = absOut pre c op := by
-  obtain ⟨hrm, hmo, hdu⟩ := sound_rest hs
+  obtain ⟨hrm, hmo, hdu, hcp⟩ := sound_rest hs
   cases op with
   | look s =>
     simp only [step, absStep, absOut]
@@ -301,6 +301,9 @@ theorem step_sim [Mul K] {cfg : Cfg} (hs : cfg.sound = true) (pre : PrefixesN K)
     intro k
     simp only [loaded, Tab.get?_fill, fillC, hf.of_nil (forget_derived r) k]
     cases c k <;> rfl
+  | copy =>
+    simp only [step, absStep, absOut, hcp, if_true, and_true]
+    exact h
 
 theorem run_sim [Mul K] {cfg : Cfg} (hs : cfg.sound = true) (pre : PrefixesN K) (dflt : Dict (Entry K))
     (ops : List (Op K)) :
@@ -362,10 +365,11 @@ theorem stepS_sim [Mul K] {cfg : Cfg} {cc : CacheCfg} (hs : cfg.sound = true) (h
     (rt : Route K) (dflt : Dict (Entry K)) (r : RegS K) (c : Contents K) (h : InvS rt r c) (op : OpS K) :
     InvS rt (stepS cfg cc rt dflt r op).1 (absStepS dflt c op) ∧
       (stepS cfg cc rt dflt r op).2 = absOutS rt c op := by
-  have hcc : cc.addClears = true ∧ cc.removeClears = true ∧ cc.modifyClears = true ∧ cc.reloadEmpty = true := by
+  have hcc : cc.addClears = true ∧ cc.removeClears = true ∧ cc.modifyClears = true ∧ cc.reloadEmpty = true
+      ∧ cc.copyEmpty = true := by
     unfold CacheCfg.sound at hcs
     simp only [Bool.and_eq_true] at hcs
-    exact ⟨hcs.1.1.1, hcs.1.1.2, hcs.1.2, hcs.2⟩
+    exact ⟨hcs.1.1.1.1, hcs.1.1.1.2, hcs.1.1.2, hcs.1.2, hcs.2⟩
   cases op with
   | unit name =>
     simp only [stepS, absStepS, absOutS]
@@ -418,7 +422,8 @@ theorem stepS_sim [Mul K] {cfg : Cfg} {cc : CacheCfg} (hs : cfg.sound = true) (h
       cases o with
       | look s => simp only [absStep]; exact h.2
       | add s e => simp only [hcc.1, if_true]; exact CacheInv.nil rt _
-      | reload => simp only [hcc.2.2.2, if_true]; exact CacheInv.nil rt _
+      | reload => simp only [hcc.2.2.2.1, if_true]; exact CacheInv.nil rt _
+      | copy => simp only [hcc.2.2.2.2, if_true]; exact CacheInv.nil rt _
       | remove s =>
         simp only [absOut, absStep]
         rcases Option.eq_none_or_eq_some (c s) with hc | ⟨e0, hc⟩
